@@ -2,6 +2,8 @@ package main
 
 import (
 	"fmt"
+	"go/token"
+	"golang.org/x/tools/go/ssa"
 	"strings"
 )
 
@@ -13,7 +15,8 @@ func ruleSetNewVal(c *Check, rule string) {
 	name := "lmdbenv/strategy.setNewVal"
 	fn := c.P.Func(name)
 	if fn == nil {
-		c.Undecided(rule, name, "function not found", "")
+		// folded into Update: the composed table is checked there
+		ruleUpdateLoop(c, rule)
 		return
 	}
 	c.UseFunc(name)
@@ -265,6 +268,48 @@ func ruleIterBoth(c *Check, rStep, rSorted, rCmp string) {
 	pos := c.P.Pos(fn.Pos())
 	intKey := param(fn, 2)
 	cbName := "dyn:" + param(fn, 3)
+	// the pending iterator key and database key: the variables handed to the
+	// callback as its first two arguments
+	isCb := func(cc *ssa.CallCommon) bool { return len(fn.Params) > 3 && cc.Value == ssa.Value(fn.Params[3]) }
+	itVar, dbVar := callArgVarAny(fn, isCb, 0), callArgVarAny(fn, isCb, 1)
+	if itVar == "" || dbVar == "" {
+		c.Undecided(rStep, name+"/keys", "cannot identify the pending iterator key and database key (arguments of the callback)", pos)
+		return
+	}
+	// the exhaustion flags: the bool tested together with "key == nil" before a
+	// side is advanced; the previous key: the destination of copy(_, input key)
+	itEOFv, dbEOFv := eofFlagOf(fn, itVar), eofFlagOf(fn, dbVar)
+	prevVar := ""
+	for _, b := range fn.Blocks {
+		for _, in := range b.Instrs {
+			call, ok := in.(*ssa.Call)
+			if !ok {
+				continue
+			}
+			fromNext := func(v ssa.Value) bool {
+				if varNameOf(v) == itVar {
+					return true
+				}
+				if ex, ok := v.(*ssa.Extract); ok {
+					if cl, ok := ex.Tuple.(*ssa.Call); ok && cl.Common().IsInvoke() && cl.Common().Method.Name() == "Next" {
+						return true
+					}
+				}
+				return false
+			}
+			if bi, ok := call.Common().Value.(*ssa.Builtin); ok && bi.Name() == "copy" && fromNext(call.Common().Args[1]) {
+				if sl, ok := call.Common().Args[0].(*ssa.Slice); ok {
+					prevVar = varNameOf(sl.X)
+				} else {
+					prevVar = varNameOf(call.Common().Args[0])
+				}
+			}
+		}
+	}
+	if itEOFv == "" || dbEOFv == "" || prevVar == "" {
+		c.Undecided(rStep, name+"/state", fmt.Sprintf("cannot identify the exhaustion flags (%q, %q) and the remembered previous key (%q) of the walk", itEOFv, dbEOFv, prevVar), pos)
+		return
+	}
 	cmpInt := "lmdbenv/strategy.cmpIntegerLittleEndian"
 	cells := map[string]int{}
 	bad, badS, badC := 0, 0, 0
@@ -273,8 +318,8 @@ func ruleIterBoth(c *Check, rStep, rSorted, rCmp string) {
 		p := &paths[i]
 		var hdr string
 		for _, e := range p.Events {
-			if e.Kind == "cond" && strings.HasPrefix(e.Cond.Atom.A, "isnil(loop:itKey@") {
-				hdr = strings.TrimSuffix(strings.TrimPrefix(e.Cond.Atom.A, "isnil(loop:itKey@"), ")")
+			if e.Kind == "cond" && strings.HasPrefix(e.Cond.Atom.A, "isnil(loop:"+itVar+"@") {
+				hdr = strings.TrimSuffix(strings.TrimPrefix(e.Cond.Atom.A, "isnil(loop:"+itVar+"@"), ")")
 				break
 			}
 		}
@@ -301,7 +346,7 @@ func ruleIterBoth(c *Check, rStep, rSorted, rCmp string) {
 			}
 		}
 		// effective state at the decision point
-		kIt, eofIt := L("itKey"), ""
+		kIt, eofIt := L(itVar), ""
 		fetchedIt := false
 		if nx := callsOf(p, itNext); len(nx) == 1 {
 			okn, f := boolCond(p, "isnil("+nx[0].Res+"#1)", -1)
@@ -321,14 +366,14 @@ func ruleIterBoth(c *Check, rStep, rSorted, rCmp string) {
 			}
 		}
 		if eofIt == "" {
-			if t, f := boolCond(p, L("itEOF"), -1); f {
+			if t, f := boolCond(p, L(itEOFv), -1); f {
 				eofIt = fmt.Sprint(t)
 			}
 		}
 		// sortedness check on a freshly fetched key
 		if fetchedIt {
-			lenPrev := p.State.RelOf("int", "len("+L("prevKey")+")", "const:0")
-			r := relOf(L("prevKey"), kIt)
+			lenPrev := p.State.RelOf("int", "len("+L(prevVar)+")", "const:0")
+			r := relOf(L(prevVar), kIt)
 			errRet := p.End == "return" && !retIsNilErr(p) && len(callsOf(p, cbName)) == 0 && len(callsOf(p, "(*lmdb.Cursor).Get")) == 0
 			switch {
 			case errRet:
@@ -351,7 +396,7 @@ func ruleIterBoth(c *Check, rStep, rSorted, rCmp string) {
 				cp := callsOf(p, "builtin:copy")
 				okc := false
 				for _, cc := range cp {
-					if cc.Args[1] == kIt && strings.HasPrefix(cc.Args[0], "slice("+L("prevKey")) {
+					if cc.Args[1] == kIt && strings.HasPrefix(cc.Args[0], "slice("+L(prevVar)) {
 						okc = true
 					}
 				}
@@ -364,7 +409,7 @@ func ruleIterBoth(c *Check, rStep, rSorted, rCmp string) {
 				continue
 			}
 		}
-		kDb, vDb, eofDb := L("dbKey"), L("dbVal"), ""
+		kDb, vDb, eofDb := L(dbVar), L(callArgVarAny(fn, isCb, 2)), ""
 		if g := callsOf(p, "(*lmdb.Cursor).Get"); len(g) == 1 {
 			okg, f := boolCond(p, "isnil("+g[0].Res+"#2)", -1)
 			if f && okg {
@@ -382,7 +427,7 @@ func ruleIterBoth(c *Check, rStep, rSorted, rCmp string) {
 			}
 		}
 		if eofDb == "" {
-			if t, f := boolCond(p, L("dbEOF"), -1); f {
+			if t, f := boolCond(p, L(dbEOFv), -1); f {
 				eofDb = fmt.Sprint(t)
 			}
 		}
@@ -404,7 +449,7 @@ func ruleIterBoth(c *Check, rStep, rSorted, rCmp string) {
 			continue
 		}
 		a := cb[0].Args
-		nextIt, nextDb := backedgeVal(p, "itKey"), backedgeVal(p, "dbKey")
+		nextIt, nextDb := backedgeVal(p, itVar), backedgeVal(p, dbVar)
 		cont := strings.HasPrefix(p.End, "backedge:")
 		check := func(cell string, want []string, wantIt, wantDb string) {
 			cells[cell]++
@@ -436,7 +481,7 @@ func ruleIterBoth(c *Check, rStep, rSorted, rCmp string) {
 		case eofIt == "true":
 			check("input-exhausted=>db-only", []string{"nil", kDb, vDb, "const:true", "const:false"}, kIt, "nil")
 		case eofDb == "true":
-			check("db-exhausted=>input-only", []string{kIt, "nil", "nil", "const:false", "const:true"}, "nil", kDbNext(kDb, L("dbKey")))
+			check("db-exhausted=>input-only", []string{kIt, "nil", "nil", "const:false", "const:true"}, "nil", kDbNext(kDb, L(dbVar)))
 		default:
 			r := relOf(kDb, kIt)
 			switch r {
@@ -535,7 +580,11 @@ func ruleCmpInt(c *Check, rule string) {
 
 // strategy.Update loop (C19-R1 / C01-R4b) and EmptyPut/doPut (C19-R7).
 func ruleUpdateLoop(c *Check, rule string) {
-	fn, paths := c.walkFn(rule, fnStratUpd, WalkConfig{})
+	// setNewVal (when it exists as a function) is walked as part of Update: the
+	// composed table is the same whether the helper is separate or folded in
+	fn, paths := c.walkFn(rule, fnStratUpd, WalkConfig{Inline: func(f *ssa.Function, d int) bool {
+		return QualName(f) == "lmdbenv/strategy.setNewVal"
+	}})
 	if paths == nil {
 		return
 	}
@@ -599,19 +648,37 @@ func ruleUpdateLoop(c *Check, rule string) {
 			}
 			continue
 		}
-		sv := callsOf(p, "lmdbenv/strategy.setNewVal")
 		n++
-		if len(sv) != 1 || sv[0].Args[0] != txn || sv[0].Args[1] != dbi || sv[0].Args[2] != key || sv[0].Args[3] != g.Res+"#0" || sv[0].Args[4] != mg[0].Res+"#0" {
-			bad++
-			c.Bad(rule, fnStratUpd+"/apply", "the merge decision is not applied with setNewVal(txn, dbi, key, stored, merged)", c.pathPos(p), describe(c, p))
-		}
-		if len(mutators(p)) != 0 {
-			bad++
-			c.Bad(rule, fnStratUpd+"/direct-mutation", "Update mutates LMDB other than through setNewVal", c.pathPos(p), nil)
+		stored, merged := g.Res+"#0", mg[0].Res+"#0"
+		muts := mutators(p)
+		lenRel := p.State.RelOf("int", "len("+merged+")", "const:0")
+		eqRel := p.State.RelOf("bytes", merged, stored)
+		switch {
+		case lenRel == EQ:
+			if !(len(muts) == 1 && muts[0].Callee == txnDel && muts[0].Args[0] == txn && muts[0].Args[1] == dbi && muts[0].Args[2] == key) {
+				bad++
+				c.Bad(rule, fnStratUpd+"/apply", "an empty merge result (delete decision) is not applied as exactly one Del(dbi, key)", c.pathPos(p), describe(c, p))
+			}
+		case lenRel&EQ == 0 && eqRel == EQ:
+			if len(muts) != 0 {
+				bad++
+				c.Bad(rule, fnStratUpd+"/apply", "a merge result equal to the stored value (keep decision) causes an LMDB write", c.pathPos(p), describe(c, p))
+			}
+		case lenRel&EQ == 0 && eqRel&EQ == 0:
+			if !(len(muts) == 1 && muts[0].Callee == txnPut && muts[0].Args[0] == txn && muts[0].Args[1] == dbi && muts[0].Args[2] == key && muts[0].Args[3] == merged) {
+				bad++
+				c.Bad(rule, fnStratUpd+"/apply", "a changed non-empty merge result is not applied as exactly one Put(dbi, key, merged)", c.pathPos(p), describe(c, p))
+			}
+		default:
+			// the path ended (error of Del/Put) or did not determine the cell
+			if !(p.End == "return" && !retIsNilErr(p)) {
+				bad++
+				c.Bad(rule, fnStratUpd+"/apply", fmt.Sprintf("the merge decision is applied without determining empty (%s) and equal-to-stored (%s) first", lenRel, eqRel), c.pathPos(p), describe(c, p))
+			}
 		}
 	}
 	if bad == 0 {
-		c.Ok(rule, fnStratUpd+"/loop", fmt.Sprintf("%d applying paths: every key from Next is looked up, merged with exactly its stored value (not-found ⇒ nil) and applied through setNewVal; io.EOF ends the loop, every other error aborts", n), pos)
+		c.Ok(rule, fnStratUpd+"/loop", fmt.Sprintf("%d applying paths: every key from Next is looked up, merged with exactly its stored value (not-found ⇒ nil) and the decision applied (empty ⇒ one Del, equal ⇒ no write, changed ⇒ one Put of the merged value); io.EOF ends the loop, every other error aborts", n), pos)
 	}
 	c.Floor(rule, n, 2, "applying paths of strategy.Update")
 }
@@ -701,6 +768,7 @@ func ruleEmptyPut(c *Check, rule string) {
 func ruleNoOwnRejection(c *Check, rule string, names ...string) {
 	for _, name := range names {
 		fn, paths := c.walkFn(rule, name, WalkConfig{})
+		name = strings.TrimPrefix(name, "?")
 		if paths == nil {
 			continue
 		}
@@ -737,4 +805,33 @@ func ruleNoOwnRejection(c *Check, rule string, names ...string) {
 			c.Ok(rule, name+"/errors-have-cause", fmt.Sprintf("all %d error returns follow a failed iterator or LMDB call (or report unsorted input)", n), c.P.Pos(fn.Pos()))
 		}
 	}
+}
+
+// eofFlagOf: the loop-carried bool that is tested right after "keyVar == nil"
+// (the `if key == nil && !eof` guard in front of advancing one side).
+func eofFlagOf(fn *ssa.Function, keyVar string) string {
+	for _, b := range fn.Blocks {
+		iff, ok := b.Instrs[len(b.Instrs)-1].(*ssa.If)
+		if !ok {
+			continue
+		}
+		cmp, ok := iff.Cond.(*ssa.BinOp)
+		if !ok || cmp.Op != token.EQL || varNameOf(cmp.X) != keyVar || !isNilConst(cmp.Y) {
+			continue
+		}
+		nb := b.Succs[0]
+		if len(nb.Instrs) == 0 {
+			continue
+		}
+		if iff2, ok := nb.Instrs[len(nb.Instrs)-1].(*ssa.If); ok {
+			v := iff2.Cond
+			if u, ok := v.(*ssa.UnOp); ok && u.Op == token.NOT {
+				v = u.X
+			}
+			if n := varNameOf(v); n != "" {
+				return n
+			}
+		}
+	}
+	return ""
 }
